@@ -412,6 +412,34 @@ pub fn alltags(a: &Args) -> Report {
   let seed = a.u64("seed", 1);
   let mut rng = rng_from(seed, 1414);
   let pt = Client::blind(b"all tags").0;
+  // constructor lists with repeated / unsorted tags: the registered set is the set of listed tags
+  for list in [vec![1u8, 1, 2], vec![0, 0, 1, 2, 3], vec![7, 254, 254, 255], vec![5, 5], vec![2, 1, 2], vec![255, 0, 255, 128, 0], vec![9, 8, 7, 7, 7, 6]] {
+    let srv = match guard(|| Server::new(list.clone())) {
+      Guard::Done(Ok(s)) => s,
+      _ => {
+        rep.violation("C14", "Server::new", "alltags:new-failed", format!("Server::new({list:?}) failed"), json!({"list": list}));
+        continue;
+      }
+    };
+    let pk = srv.get_public_key();
+    for md in 0..=255u8 {
+      rep.evaluations += 1;
+      let want = list.contains(&md);
+      let r = guard(|| srv.eval(&pt, md, true));
+      let got = matches!(r, Guard::Done(Ok(_)));
+      if got != want {
+        rep.violation("C14", "Server::eval", "alltags:constructor-list-registration",
+          format!("Server::new({list:?}): tag {md} listed={want} but answered={got}"), json!({"list": list, "tag": md}));
+      } else if let Guard::Done(Ok(ev)) = r {
+        // the answer is consistent with the public key committed to for that tag
+        if !matches!(guard(|| Client::verify(&pk, &pt, &ev, md)), Guard::Done(true)) {
+          rep.violation("C14", "Server::new", "alltags:public-key-inconsistent",
+            format!("Server::new({list:?}): the proof for tag {md} does not verify under the server's own public key"), json!({"list": list, "tag": md}));
+        }
+      }
+    }
+    rep.nontrivial(format!("ctor:{list:?}"));
+  }
   for (name, tags) in [("all", (0..=255u8).collect::<Vec<u8>>()), ("even", (0..=255u8).filter(|t| t % 2 == 0).collect())] {
     let mut s = match Server::new(tags.clone()) {
       Ok(s) => s,
